@@ -43,6 +43,7 @@ def main(argv=None):
     ap.add_argument("pid")
     ap.add_argument("--tier", default=os.environ.get("VERIF_TIER") or "quick", choices=["quick", "thorough"])
     ap.add_argument("--replay")
+    ap.add_argument("--no-baseline", dest="p_only_subset", action="store_true", help="skip the obligation-count self-check (used while regenerating the baseline)")
     ap.add_argument("--p-only", action="store_true")
     ap.add_argument("--b-only", action="store_true")
     ap.add_argument("--verbose", "-v", action="store_true")
@@ -138,6 +139,22 @@ def run_check(pid, a, seed, env, tmpd, t0):
             sys.stderr.write(procs[k]["stdout"][-4000:])
             sys.stderr.write(procs[k]["stderr"][-4000:])
 
+    # self-check against silently lost obligations: a function whose source text is the one of the committed baseline must
+    # produce at least as many obligations as it did there (a path that became infeasible through a spec/registry mistake
+    # drops its obligations without any failure — this happened once, see DESIGN 0.6)
+    if P.get("present") and not a.p_only_subset:
+        try:
+            allb = json.load(open(vc.ROOT / "lib" / "oblig_baseline.json"))
+            # only on the very tree the baseline was taken on: a changed helper may legitimately change what an unchanged caller yields
+            base = allb.get(pid, {}) if allb.get("_tree") == vc.tree_digest() else {}
+        except Exception:  # noqa
+            base = {}
+        for f in P.get("functions", []):
+            b = base.get(f.get("fn"))
+            if b and b.get("sha") == f.get("sha") and f.get("status") == "ok":
+                lost = sorted(set(b.get("names", [])) - set(f.get("obligation_names", [])))
+                if lost:
+                    crashes.append(f"P-tier: {f['fn']} is unchanged (sha {f['sha']}) but no longer yields the obligations {lost[:4]}{'...' if len(lost) > 4 else ''} of the committed baseline: some path lost its obligations (spec or registry error)")
     obligations = P.get("obligations", []) if P.get("present") else []
     n_obl = len(obligations)
     discharged = [o for o in obligations if o["verdict"] == "discharged"]
